@@ -183,7 +183,7 @@ def run_tree(rec, tier, seed, ti, spec, t, log, lf):
                     r.chunked_reading_mode = mode
                     m = RefReader(d)
                     m.chunked = mode
-                    ls = LockstepReader(r, m, fuel=50 * len(d) + 3000, fail_at=fail_at)
+                    ls = LockstepReader(r, m, fuel=min(50 * len(d) + 3000, 6 * len(d) + 200000), fail_at=fail_at)
                     dlast["ls"], dlast["ok"] = ls, False
                     try:
                         C.deserialize(ls)
